@@ -375,13 +375,25 @@ theorem estimation_cleanup_on_tick_exact (cnr : Store Est) (E : Int)
   exact ⟨cnr', h1, fun x => by rw [h2 x, totalCleanupDelta_eq]⟩
 
 /-- one-step form of the put-time cleanup: the loop of `updateEstimations` deletes exactly the keys of the listed
-epochs with `e − old > CleanupDelta` and keeps the other epochs in the list -/
-theorem estimation_cleanup_on_put_exact (s : Store Est) (e : Int) (cid h : Bytes) (old : List Int) (k : Bytes) :
+epochs with `e − old > CleanupDelta` and keeps exactly the other listed epochs (stated over the SET of listed
+epochs: the `est…` record is internal bookkeeping, its order and multiplicities are not observable) -/
+theorem estimation_cleanup_on_put_exact (s : Store Est) (e : Int) (cid h : Bytes) (old : List Int) (k : Bytes) (o : Int) :
     get (updLoop s e cid h old).1 k =
         (if (∃ o ∈ old, e - o > 3 ∧ k = estimationKey o cid h) then none else get s k) ∧
-    (updLoop s e cid h old).2 = old.filter (fun o => !decide (e - o > 3)) := by
-  rw [updLoop_get, updLoop_list, cleanupDelta_eq]
-  exact ⟨rfl, rfl⟩
+    (o ∈ (updLoop s e cid h old).2 ↔ o ∈ old ∧ ¬ (e - o > 3)) := by
+  rw [updLoop_get, updLoop_mem_list, cleanupDelta_eq]
+  exact ⟨rfl, Iff.rfl⟩
+
+/-- the put-time cleanup depends only on the set of listed epochs: two lists with the same members (duplicates,
+order) leave the same estimation records and keep the same set of epochs -/
+theorem estimation_put_cleanup_depends_on_epoch_set (s : Store Est) (e : Int) (cid h : Bytes) (l l' : List Int)
+    (hset : ∀ o, o ∈ l ↔ o ∈ l') (k : Bytes) (o : Int) :
+    get (updLoop s e cid h l).1 k = get (updLoop s e cid h l').1 k ∧
+    (o ∈ (updLoop s e cid h l).2 ↔ o ∈ (updLoop s e cid h l').2) := by
+  refine ⟨updLoop_get_congr s e cid h l l' hset k, ?_⟩
+  rw [updLoop_mem_list, updLoop_mem_list, hset o]
+
+example : (updLoop ([] : Store Est) 10 [] [] [1, 1, 8, 1]).2 = [8] := by decide
 
 /-- **exact characterisation of `iterateContainerSizes(e, cid)`** for all histories in the quantifier -/
 theorem estimation_iterate_char (hist : List (Env × Op)) (N : List Bytes) (hN : NodesOK N) (hok : EstHistOK N hist)
